@@ -1,6 +1,7 @@
 /-
-  C31 — witnesses: the two leaf shapes on which `match_datadog_query` deviates from the reference
-  semantics (both re-observed on the real implementation by `o.c31 leaf`), and non-vacuity examples.
+  C31 — witnesses: the leaf shape on which `match_datadog_query` deviates from the reference
+  semantics (re-observed on the real implementation by `o.c31 leaf`), the repaired tag comparison
+  (/repo d99b562), and non-vacuity examples.
 -/
 import VrlProofs.Props.C31
 
@@ -13,12 +14,19 @@ def wEvent : Value := .obj (.cons (utf8 "tags".toList) (.arr (.cons (.bytes (utf
 /-- `b:>1` -/
 def wTagCompare : QNode := .leaf (.comparison ['b'] .gt (.int 1))
 
-/-- D_tag_compare_ignores_key: `b:>1` holds on an event whose only tag is `a:5` — the comparison
-    looks at the value of every `key:value` element of `tags`, not at the tag `b`. -/
-theorem witness_tag_compare :
-    devTagCompare wTagCompare = true ∧
-    matchQuery Env.ref wTagCompare wEvent = .ok true ∧
+/-- fixed (d99b562): `b:>1` no longer holds on an event whose only tag is `a:5` — the comparison used
+    to look at the value of every `key:value` element of `tags`; it now compares only the values of
+    the tag `b`, as the reference semantics says (`C31.comparison_spec` for all queries and events) … -/
+theorem fixed_tag_compare :
+    matchQuery Env.ref wTagCompare wEvent = .ok false ∧
     Spec.run Env.ref wTagCompare wEvent = .ok false := by
+  decide
+
+/-- … and still holds when the tag is there: `a:>1` on `{"tags": ["a:5"]}`, also as a range -/
+theorem fixed_tag_compare_present :
+    matchQuery Env.ref (.leaf (.comparison ['a'] .gt (.int 1))) wEvent = .ok true ∧
+    matchQuery Env.ref (.leaf (.range ['a'] (.int 1) true (.int 9) false)) wEvent = .ok true ∧
+    matchQuery Env.ref (.leaf (.range ['b'] (.int 1) true (.int 9) false)) wEvent = .ok false := by
   decide
 
 /-- `_exists_:tags` -/
